@@ -10,6 +10,8 @@ Use C  Recursive events (input and output hierarchy projected per configured nod
 from __future__ import annotations
 
 import json
+import os
+import subprocess
 
 from . import cborx, core, envgen, project, signrun, tlc, toolrun
 from .c04_sign import sign_chain, make_input
@@ -181,11 +183,153 @@ def random_tree(rng, depth=0, name="root"):
     return node
 
 
+WRAPPER = """import importlib.util, json
+REAL = {real!r}
+LOG = {log!r}
+ID = {id!r}
+_spec = importlib.util.spec_from_file_location("verif_real_sign_script_" + ID, REAL)
+_m = importlib.util.module_from_spec(_spec)
+_spec.loader.exec_module(_m)
+
+
+class Signer(_m.Signer):
+    def sign_envelope(self, input_envelope, key_name, key_id, algorithm, context, kms_script, already_signed_action):
+        with open(LOG, "a") as f:
+            f.write(json.dumps({{"sign": ID, "key": key_name, "kid": key_id, "alg": algorithm.value, "ctx": context,
+                                 "kms": str(kms_script), "action": already_signed_action.value}}) + "\\n")
+        return super().sign_envelope(input_envelope, key_name, key_id, algorithm, context, kms_script, already_signed_action)
+
+
+def suit_signer_factory():
+    return Signer()
+"""
+
+
+class ResolveWorld:
+    """Plug-in scripts that make the resolution observable: sign scripts A, B (configuration), E (NCS_SUIT_SIGN_SCRIPT), Z
+    (under ZEPHYR_BASE) are thin wrappers around the repository's sign script that log the call RecursiveSigner makes for a
+    node (every resolved setting is an argument of that call); KMS scripts A, B, E, Z are copies of the repository's
+    basic_kms.py, told apart by their path; contexts C1, C2 and every script directory hold a key 'ked'."""
+
+    def __init__(self, d, keys):
+        import shutil
+        self.d = d
+        self.log = d / "calls.ndjson"
+        real_sign, real_kms = signrun.sign_scripts()
+        ked = (keys.dir / "ked.pem").read_bytes()
+        self.sign, self.kms, self.ctx = {}, {}, {}
+        zdir = d / "zb" / "modules" / "lib" / "suit-generator" / "ncs"
+        (d / "zb" / "zephyr").mkdir(parents=True)
+        self.zephyr_base = str(d / "zb" / "zephyr")
+        for ident in ("A", "B", "E", "Z"):
+            sd = zdir if ident == "Z" else d / ident
+            sd.mkdir(parents=True, exist_ok=True)
+            sp = sd / ("sign_script.py" if ident == "Z" else f"sign_{ident}.py")
+            kp = sd / ("basic_kms.py" if ident == "Z" else f"kms_{ident}.py")
+            sp.write_text(WRAPPER.format(real=real_sign, log=str(self.log), id=ident))
+            shutil.copyfile(real_kms, kp)
+            (sd / "ked.pem").write_bytes(ked)
+            self.sign[ident], self.kms[ident] = str(sp), str(kp)
+        for c in ("C1", "C2"):
+            (d / c).mkdir()
+            (d / c / "ked.pem").write_bytes(ked)
+            self.ctx[c] = str(d / c)
+        self.kms_id = {os.path.realpath(v): k for k, v in self.kms.items()}
+        self.ctx_id = {os.path.realpath(v): k for k, v in self.ctx.items()}
+
+    def environment(self, env):
+        e = {}
+        if env["ncsSign"]:
+            e["NCS_SUIT_SIGN_SCRIPT"] = self.sign["E"]
+        if env["ncsKms"]:
+            e["NCS_SUIT_KMS_SCRIPT"] = self.kms["E"]
+        if env["zephyr"]:
+            e["ZEPHYR_BASE"] = self.zephyr_base
+        return e
+
+    def node_json(self, own, kid):
+        j = {"key-name": "ked", "key-id": hex(kid)}
+        if own["sign"] != "none":
+            j["sign-script"] = self.sign[own["sign"]]
+        if own["kms"] != "none":
+            j["kms-script"] = self.kms[own["kms"]]
+        if own["ctx"] != "none":
+            j["context"] = self.ctx[own["ctx"]]
+        if own["alg"] != "none":
+            j["alg"] = own["alg"]
+        if own["action"] != "none":
+            j["already-signed-action"] = own["action"]
+        return j
+
+
+ENVVARS = ("NCS_SUIT_SIGN_SCRIPT", "NCS_SUIT_KMS_SCRIPT", "ZEPHYR_BASE")
+
+
+def run_resolve(ctx, tr, world: ResolveWorld, root_file, s, via="lib"):
+    """One Resolve_MC scenario: chain of own settings (root, child, grandchild) x environment -> real `sign recursive`."""
+    chain, env = s["chain"], s["env"]
+    kids = [0x101, 0x102, 0x103]
+    cfg = world.node_json(chain[0], kids[0])
+    cfg["dependencies"] = {"#c": world.node_json(chain[1], kids[1])}
+    cfg["dependencies"]["#c"]["dependencies"] = {"#g": world.node_json(chain[2], kids[2])}
+    out = world.d / "resolved.suit"
+    cfile = world.d / "resolve_cfg.json"
+    cfile.write_text(json.dumps(cfg))
+    for f in (out, world.log):
+        if f.exists():
+            f.unlink()
+    extra = world.environment(env)
+    if via == "cli":
+        e = core.cli_env()
+        for v in ENVVARS:
+            e.pop(v, None)
+        e.update(extra)
+        subprocess.run(core.cli_cmd("sign", "recursive", "--input-envelope", root_file, "--output-envelope", out, "--configuration", cfile),
+                       cwd=world.d, env=e, capture_output=True, text=True)
+    else:
+        core.setup_repo_path()
+        from suit_generator import cmd_sign
+        saved = {v: os.environ.pop(v, None) for v in ENVVARS}
+        os.environ.update(extra)
+        try:
+            cmd_sign.main(sign_subcommand="recursive", input_envelope=root_file, output_envelope=out, configuration=cfile)
+        except BaseException as ex:
+            if isinstance(ex, (KeyboardInterrupt, SystemExit, MemoryError)):
+                raise
+        finally:
+            for v in ENVVARS:
+                os.environ.pop(v, None)
+                if saved[v] is not None:
+                    os.environ[v] = saved[v]
+    calls = [json.loads(x) for x in world.log.read_text().splitlines()] if world.log.exists() else []
+    used = []
+    for kid in kids:
+        for c in calls:
+            if c["kid"] == kid:
+                used.append({"sign": c["sign"], "kms": world.kms_id.get(os.path.realpath(c["kms"]), "?"),
+                             "ctx": "none" if c["ctx"] is None else world.ctx_id.get(os.path.realpath(c["ctx"]), "?"),
+                             "alg": c["alg"], "action": c["action"]})
+    tr.begin({"origin": "resolve", "via": via, "resolve": s})
+    tr.ev("Resolve", env=env, chain=chain, written=out.exists(), used=used)
+    ctx.count("evaluations")
+    ctx.nontriv(("resolve", json.dumps(s, sort_keys=True)))
+
+
+def resolve_root(ctx, d, keys):
+    """root -> #c -> #g, unsigned."""
+    def node(name, children):
+        return {"name": name, "kind": "env", "pre": False, "cfg": {"omit": False, "haskey": True, "key": "ked", "alg": None, "action": None, "kid": 1},
+                "children": children}
+    d.mkdir(parents=True, exist_ok=True)
+    return build(ctx, node("root", [node("#c", [node("#g", [])])]), d, keys, ctx.rng, [0])
+
+
 def run(ctx: core.Check):
     ctx.cov["rule"] = ("single-level: operation sequences (3 actions x keys x algorithms x ids) from TLC; recursive: every "
                        "configuration triple of the reduced per-node alphabet over a 3-level hierarchy (TLC, Sign_RecMC) + "
                        "seeded trees of depth <= 3 (two dependencies per node, inherited algorithm, absent/non-envelope "
-                       "dependencies, missing keys, pre-signed nodes). Distinct & non-trivial = distinct per-node "
+                       "dependencies, missing keys, pre-signed nodes); resolution of sign-script / kms-script / context / algorithm / action per node "
+                       "over own settings x {NCS_SUIT_SIGN_SCRIPT, NCS_SUIT_KMS_SCRIPT, ZEPHYR_BASE} (TLC, Resolve_MC). Distinct & non-trivial = distinct per-node "
                        "(exists, envelope, omit, key, type, algorithm, action, pre-signed) assignment.")
     ctx.note("Use A: Sign_MC + Sign_RecMC")
     ctx.mc("Sign_MC", "Sign_MC.cfg", required_actions=("SignOp",))
@@ -220,6 +364,21 @@ def run(ctx: core.Check):
             toolrun.report(ctx, tr, label="recursive-random")
             tr = toolrun.Trace()
     toolrun.report(ctx, tr, label="recursive-random")
+    # resolution of the settings a node is signed with ("with inherited defaults"): own > inherited > environment > ZEPHYR_BASE
+    ctx.note("Use A/B/C: Resolve_MC scenarios (own settings x environment) -> real sign recursive with logging plug-in scripts")
+    g = ctx.mc("Resolve_MC", "Resolve_MC.cfg", workers=1, coverage=False, label="A:precedence invariants + B:scenario enumeration")
+    rs = g.tagged("SCN")
+    ctx.rng.shuffle(rs)
+    refused = [x for x in rs if x["refused"]]
+    rs = [x for x in rs if not x["refused"]][: (160 if ctx.quick else 4000)] + refused[: (12 if ctx.quick else 300)]
+    wd = ctx.tmp("c09res")
+    world = ResolveWorld(wd, keys)
+    root_file = resolve_root(ctx, wd / "tree", keys)
+    tr = toolrun.Trace()
+    for k, s_ in enumerate(rs):
+        run_resolve(ctx, tr, world, root_file, s_, via="cli" if k % 40 == 0 else "lib")
+    ctx.sample({"resolve_scenario": rs[0], "event": tr.events[1]})
+    toolrun.report(ctx, tr, label="resolve")
     # single-level policy table on singly signed / unsigned inputs, all algorithms and key types
     ctx.note("Use C: single-level policy table")
     tr = toolrun.Trace()
@@ -244,7 +403,10 @@ def replay(ctx, rec):
     d = ctx.tmp("c09r")
     keys = signrun.Keys(d / "keys")
     tr = toolrun.Trace()
-    if "tree" in scn:
+    if "resolve" in scn:
+        world = ResolveWorld(d / "res", keys)
+        run_resolve(ctx, tr, world, resolve_root(ctx, d / "tree", keys), scn["resolve"], via=scn.get("via", "lib"))
+    elif "tree" in scn:
         run_tree(ctx, tr, keys, scn["tree"], ctx.rng, via=scn.get("via", "lib"), origin="replay")
     else:
         b = envgen.Builder(d)
